@@ -36,6 +36,39 @@ func runC10Special(c *CaseCtx, r *rand.Rand) (res CaseResult) {
 			res.violate("C06", "panic/convert-"+crashKey(fmt.Sprint(p)), fmt.Sprintf("panicked: %v", p), map[string]interface{}{"case": res.Key})
 		}
 	}()
+	if r.Intn(4) == 0 {
+		// the wanted interface type is only produced as a DIFFERENT interface
+		// type with the same method set (each implements the other),
+		// directly or through one more single-input converter
+		chain := r.Intn(2) == 0
+		res.Key = fmt.Sprintf("twin-interface-producer chain=%v", chain)
+		det := map[string]interface{}{"case": res.Key}
+		args := []am.Arg{am.Typed(T3{ID: 4}), am.Converter(func(a T3) I0twin { return T0{ID: a.ID + 1000} })}
+		want := types[tI0]
+		if chain {
+			args = []am.Arg{am.Typed(T4{ID: 4}), am.Converter(func(a T4) T3 { return T3{ID: a.ID} }), args[1]}
+		}
+		if r.Intn(2) == 0 {
+			// the other direction
+			want = reflect.TypeOf((*I0twin)(nil)).Elem()
+			args[len(args)-1] = am.Converter(func(a T3) I0 { return T0{ID: a.ID + 1000} })
+		}
+		for k := 0; k < tierReps(c.Tier, 15, 40); k++ {
+			v, err := am.Convert(want, args...)
+			res.Evals++
+			if err != nil || v == nil {
+				res.violate("C10", "differs-from-identity-call", fmt.Sprintf("the type is derivable through single-input converters (an identity call succeeds) but Convert returned (%v, %v)", v, firstLine(errStr(err))), det)
+				break
+			}
+			if id, _ := idOfIface(v); id != 1004 {
+				res.violate("C10", "value-differs", fmt.Sprintf("Convert returned #%d, the converter produced #1004", id), det)
+				break
+			}
+		}
+		res.obs("twin_interface_cases", 1)
+		res.Sample = det
+		return res
+	}
 	if r.Intn(3) == 0 {
 		// nil interface value from the only producer
 		res.Key = "nil-interface-producer"
